@@ -36,6 +36,14 @@ pub struct ServerCodec {
 
 impl ServerCodec {
     fn decode_packet(&mut self, src: &mut BytesMut) -> Result<Option<InboundIn>, anyhow::Error> {
+        // address, length, CRLF, payload: wait until the whole datagram frame has arrived
+        if src.remaining() < 2 {
+            return Ok(None);
+        }
+        let header_len = address::try_decode_at(src, 0)? + 2 + trojan::CR_LF.len();
+        if src.remaining() < header_len || src.remaining() < header_len + u16::from_be_bytes([src[header_len - 4], src[header_len - 3]]) as usize {
+            return Ok(None);
+        }
         let peer_addr = address::decode(src)?;
         let len = src.get_u16();
         src.advance(trojan::CR_LF.len());
